@@ -69,8 +69,18 @@ def _dec(t, s):
                         return np.datetime64(x).astype(dtype)
                     return np.dtype(dtype).type(x)
                 if k == '$arr':
-                    dtype, x = v
-                    return np.array(_dec(x, s), dtype=dtype)
+                    dtype, x = v[0], v[1]
+                    a = np.array(_dec(x, s), dtype=dtype)
+                    return a.reshape(v[2]) if len(v) > 2 else a
+                if k == '$pdts':
+                    import pandas as pd
+                    return pd.Timestamp(v)
+                if k == '$sr':   # generic Series: [index values, values, dtype|None]
+                    import pandas as pd
+                    return pd.Series(_dec(v[1], s), index=_dec(v[0], s), dtype=v[2] if len(v) > 2 else None)
+                if k == '$frame':  # generic DataFrame: [index values, columns, rows]
+                    import pandas as pd
+                    return pd.DataFrame(_dec(v[2], s), index=_dec(v[0], s), columns=_dec(v[1], s))
                 if k == '$ts':
                     import pandas as pd
                     vals = _dec(v[1], s)
